@@ -17,7 +17,7 @@ LEVEL = 'exploration'
 RULE = ('round trip: Hypothesis draws 1..3 replies (code 200..599, Unicode text with CR/LF/CRLF, ESC-looking '
         'prefixes, enhanced codes given/default/disabled) and a segmentation (burst, byte-wise, every single cut '
         'for short streams, random cuts); malformed: every string over {2,5,0,SP,-,a,CR,LF,0xff} up to length '
-        '6 (quick) / 7 (thorough) judged against a reference line grammar. non-trivial = multi-line or pipelined '
+        '6 (quick) / 7 (thorough) judged against a reference line grammar; multi-line replies with differing codes or with one junk line (empty, blank, no reply line, bare or truncated code) inserted at every position, under every single cut, line-boundary cuts and byte-wise delivery. non-trivial = multi-line or pipelined '
         'or cut inside a line (round trip), contains a complete line (malformed); distinct = distinct input bytes+cuts')
 ASSUMPTIONS = ['text is compared after normalising LF / CRLF to CRLF (documented behaviour of send_reply)',
                'first line of a text does not begin with white space (property domain)',
